@@ -64,7 +64,7 @@ impl Prop for C20 {
         tier.pick(16, 160)
     }
     fn mandatory(&self, _t: Tier) -> Vec<String> {
-        ["info:standard", "info:agile", "info:extensible", "package:mini", "package:regular", "package:empty", "package:difat", "ods:plain_entries_listed_first", "ooxml:sector:4096", "ooxml:dir_holes", "ooxml:no_mini_stream", "filepass:xor", "filepass:rc4", "filepass:cryptoapi", "filepass:biff5", "filepass:position>0", "ods:encrypted_entries:1", "ods:encrypted_entries:>1", "plain:xlsx", "plain:xlsb", "plain:xls", "plain:ods"]
+        ["info:standard", "info:agile", "info:extensible", "package:mini", "package:regular", "package:empty", "package:difat", "package:fat_237_sectors", "ods:plain_entries_listed_first", "ods:encrypt:first_entries", "ods:encrypt:not_content_xml", "ods:encrypt:whole_package", "ooxml:sector:4096", "ooxml:dir_holes", "ooxml:no_mini_stream", "filepass:xor", "filepass:rc4", "filepass:cryptoapi", "filepass:biff5", "filepass:position>0", "ods:encrypted_entries:1", "ods:encrypted_entries:>1", "plain:xlsx", "plain:xlsb", "plain:xls", "plain:ods"]
             .iter().map(|s| s.to_string()).collect()
     }
     fn run_unit(&self, ctx: &Ctx, unit: u64, out: &mut UnitResult) {
@@ -127,7 +127,25 @@ impl Prop for C20 {
             if cc.dir_holes {
                 out.feat("ooxml:dir_holes");
             }
-            let built = cfb::build(&entries, &cc, &mut rng);
+            let mut built = cfb::build(&entries, &cc, &mut rng);
+            if unit == 0 && i == 2 {
+                // a FAT of exactly 109 + 128 sectors: the second DIFAT sector holds a single entry
+                // (a DIFAT sector lists 127 FAT sectors, its last slot links to the next one)
+                let mut cc2 = CfbChoices::default();
+                cc2.difat_backwards = rng.bool();
+                let mut plen2 = 15_400_000usize;
+                for _ in 0..6 {
+                    let n = entries.len();
+                    let at = entries.iter().position(|e| e.name == "EncryptedPackage").unwrap_or(n - 1);
+                    entries[at] = Entry::stream("EncryptedPackage", rand_bytes(&mut rng, plen2));
+                    built = cfb::build(&entries, &cc2, &mut rng);
+                    if built.n_fat_sectors == 237 {
+                        out.feat("package:fat_237_sectors");
+                        break;
+                    }
+                    plen2 = (plen2 as i64 + (237 - built.n_fat_sectors as i64) * 128 * 512 - 20_000).max(4096) as usize;
+                }
+            }
             let layout = format!("{}|{}", if cc.v4 { "v4" } else { "v3" }, if built.n_mini_sectors > 0 { "mini" } else { "nomini" });
             let ctxj = json!({"unit": unit, "case": i, "package_len": plen, "layout": format!("{:?}", cc)});
             let keep = |b: &[u8]| if b.len() < 200_000 { json!(hex(b)) } else { json!(null) };
@@ -214,6 +232,8 @@ impl Prop for C20 {
             let mut oc = OdsChoices::random(&mut rng);
             oc.encrypted_entries = 1 + (i as usize % 4);
             oc.plain_entries_first = (i / 4) % 2 == 1;
+            oc.encrypt_mode = [0u8, 0, 1, 2][(i as usize / 2) % 4];
+            out.feat(["ods:encrypt:first_entries", "ods:encrypt:not_content_xml", "ods:encrypt:whole_package"][oc.encrypt_mode as usize]);
             if oc.plain_entries_first {
                 out.feat("ods:plain_entries_listed_first");
             }
